@@ -37,11 +37,22 @@ func addAccount(idx *AccountIndex, seen map[string]bool, name string) {
 
 func addAccountToIndex(idx *AccountIndex, name string) {
 	idx.All = append(idx.All, name)
+	idx.AddPrefixes(name)
+}
 
-	parts := strings.Split(name, ":")
-	for i := 1; i < len(parts); i++ {
-		prefix := strings.Join(parts[:i], ":") + ":"
-		idx.ByPrefix[prefix] = append(idx.ByPrefix[prefix], name)
+// maxIndexedDepth is the number of parent levels indexed per account. Real charts of accounts
+// are a handful of levels deep; without a bound a name made of n segments costs n*n bytes.
+const maxIndexedDepth = 32
+
+// AddPrefixes lists name under each of its parent prefixes ("a:", "a:b:", ...).
+func (idx *AccountIndex) AddPrefixes(name string) {
+	depth := 0
+	for i := 0; i < len(name) && depth < maxIndexedDepth; i++ {
+		if name[i] == ':' {
+			depth++
+			prefix := name[:i+1]
+			idx.ByPrefix[prefix] = append(idx.ByPrefix[prefix], name)
+		}
 	}
 }
 
